@@ -75,9 +75,19 @@ func c11Verifier(outcome string) func(context.Context, *vhdr.Header) error {
 }
 
 func runC11(tier string, r *rng) {
+	for _, withMetrics := range []bool{false, true} {
+		runC11With(withMetrics)
+	}
+}
+
+func runC11With(withMetrics bool) {
 	for _, p := range c11Payloads() {
 		for _, oc := range c11Outcomes {
-			sub, err := p2p.NewSubscriber[*vhdr.Header](nil, nil)
+			var sopts []p2p.SubscriberOption
+			if withMetrics {
+				sopts = append(sopts, p2p.WithSubscriberMetrics())
+			}
+			sub, err := p2p.NewSubscriber[*vhdr.Header](nil, nil, sopts...)
 			if err != nil {
 				panic(err)
 			}
